@@ -150,6 +150,18 @@ Theorem C12_store32_defined : forall q : Q, (F32.pow2 (-126) <= q)%Q -> (q < F32
 Proof. exact F32Proofs.store32_defined. Qed.
 Print Assumptions C12_store32_defined.
 
+(** [F32.f32] and [r32] are the same function wherever [f32] is defined (normal range of binary32): the cast of the save/load
+    model and the float32 store of the ingestion model are one rounding; hence [r32] is monotone there. *)
+From Leaspy Require Io.F32R32Proofs.
+Theorem C12_f32_is_r32 : forall q x : Q, F32.f32 q = Some x -> r32 q = x.
+Proof. exact F32R32Proofs.f32_is_r32. Qed.
+Print Assumptions C12_f32_is_r32.
+
+Theorem C12_r32_monotone_normal : forall q1 q2 : Q,
+  (F32.pow2 (-126) <= q1)%Q -> (q1 <= q2)%Q -> (q2 < F32.pow2 127)%Q -> (r32 q1 <= r32 q2)%Q.
+Proof. exact F32R32Proofs.r32_monotone_normal. Qed.
+Print Assumptions C12_r32_monotone_normal.
+
 (** The age collision of C14 (finding F9b, C14_roundtrip_collision_refuted) is not one witness: EVERY two ages
     a <= b in [70, 70.000003] are stored as the single float32 age 70. *)
 Theorem C12_store32_collision_interval : forall a b : Q, (70 <= a)%Q -> (a <= b)%Q -> (b <= 70000003 # 1000000)%Q ->
